@@ -23,6 +23,7 @@ func init() {
 			"R3 in the message write function SerializeTo(b) with b = buf[0:m.Len()] dominates the hand-off, exactly one of the two retry helpers receives exactly b (mutually exclusive branches), and each iteration of a retry loop performs exactly one Write/WriteStream; " +
 			"R4 the slice written on a retry is b_prev[wn:] (or b_prev when wn == 0) with wn the count the immediately preceding write returned, the retry edge is taken only under err != nil ∧ retries != 0 ∧ err is a net.Error ∧ Temporary(), the returned count accumulates wn and the loop leaves on err == nil; " +
 			"R5 the pooled serialisation buffer is released only by a deferred call. " +
+			"R2 also: no library function calls Reset on a connection's bufio.Writer (Reset drops the unflushed tail of a message, or rebinds a writer still held by another Conn to a different transport). R4 also: every retry consumes the retry budget (the counter moves toward its bound on the retry edge), and the resume position is applied once (either the slice is re-based or the offset is advanced, never both). " +
 			"Not decided: interleavings as executed, bufio.Writer's sticky error after a failed write, transports' partial-write behaviour.",
 		Rules: map[string]string{
 			"R1": "every transport write happens under the connection's write mutex",
